@@ -325,13 +325,16 @@ def rejection_case(op, ka, kb):
                 max_forks_per_site=4)
 
 
-def product_law_case():
-    """dependent product: b points are accepted with probability vol_A(b)/max vol (L4)"""
-    cname = "dependent_product/accept_proportional_to_fibre_measure"
+def product_law_case(translated=False):
+    """dependent product: b points are accepted with probability vol_A(b)/max vol (L4); also when the
+    dependent factor is wrapped in a Translate"""
+    cname = "dependent_product/accept_proportional_to_fibre_measure" + ("/translated_factor" if translated else "")
 
     def body(env):
         L = env.L
         a = SH.circle(env, tag="A", dep="t")
+        if translated:
+            a = SH.translate(env, a)
         b = SH.interval(env, tag="B", var="t")
         env.assume(b.oset.positive({}, L))
         lbv, ubv = b.oset.lb({})[0], b.oset.ub({})[0]
@@ -367,7 +370,7 @@ def product_law_case():
         kept = o["n_out"]
         yield "path_accepts_exactly_rows_with_M_u_lt_v", L.Implies(pc, z3.If(want[0], 1, 0) + z3.If(want[1], 1, 0) == kept)
 
-    return Case(cname, body, goals, family="dependent_product", max_paths=16)
+    return Case(cname, body, goals, family="dependent_product", params=dict(translated=translated), max_paths=16)
 
 
 def grid_case(kind, n):
@@ -521,6 +524,43 @@ def lhs_case(n, dim):
                 max_decisions=80)
 
 
+def lhs_rows_case(name, mk):
+    """LHSSampler with k=2 parameter rows of a parameter-dependent shape: the Latin hypercube of row i is laid over
+    the (tight) bounding box of row i, so that every slab of THAT row's box receives exactly one proposal"""
+    cname = "lhs_rows/%s/k2" % name
+
+    def body(env):
+        sh = mk(env)
+        P, rows = SH.params(env, sh.pvars, 2)
+        L = env.L
+        for prm in rows:
+            env.assume(sh.oset.positive(prm, L))
+        s = tp.samplers.LHSSampler(sh.dom, n_points=2)
+        boxes = []
+        orig = s._create_lhs_in_bounding_box
+
+        def rec(bounding_box, device):
+            boxes.append(bounding_box)
+            return orig(bounding_box, device)
+
+        s._create_lhs_in_bounding_box = rec
+        pts = s.sample_points(P)
+        want = [sh.oset.bbox(prm, L) for prm in rows]
+        return dict(boxes=boxes, want=want, n=len(pts))
+
+    def goals(o, L, env):
+        yield "one_hypercube_per_parameter_row", len(o["boxes"]) == 2
+        if len(o["boxes"]) != 2:
+            return
+        for i, (b, w) in enumerate(zip(o["boxes"], o["want"])):
+            for ax, (lo, hi) in enumerate(w):
+                yield "hypercube_box_is_box_of_its_row[row%d,axis%d,min]" % (i, ax), L.eq(b[2 * ax], lo)
+                yield "hypercube_box_is_box_of_its_row[row%d,axis%d,max]" % (i, ax), L.eq(b[2 * ax + 1], hi)
+
+    return Case(cname, body, goals, family="lhs_rows", params=dict(shape=name), max_paths=60, max_forks_per_site=12,
+                max_decisions=80)
+
+
 def cases(tier):
     cs = []
     quick = tier == "quick"
@@ -556,6 +596,9 @@ def cases(tier):
         cs.append(rejection_case("cut", "Circle", "Parallelogram"))
         cs.append(rejection_case("intersection", "Parallelogram", "Circle"))
     cs.append(product_law_case())
+    cs.append(product_law_case(translated=True))
+    cs.append(lhs_rows_case("Interval[t]", lambda env: SH.interval(env, dep="t")))
+    cs.append(lhs_rows_case("Circle[t]", lambda env: SH.circle(env, dep="t")))
     for kind in ("Interval", "Circle"):
         for n in ((2, 3) if quick else (1, 2, 3, 4)):
             cs.append(grid_case(kind, n))
